@@ -3,6 +3,7 @@ package main
 import (
 	"bytes"
 	"encoding/binary"
+	"errors"
 	"fmt"
 	"io"
 	"regexp"
@@ -285,7 +286,14 @@ func sweepResult(pj *simdjson.ParsedJson) error {
 	if pj == nil {
 		return nil
 	}
-	if err := walk.Guard(func() error { walk.Into(pj); return nil }); err != nil {
+	// a reader that is still going after more steps than the tape has entries is cycling:
+	// the caller's loop would never end (decided on steps, not on time)
+	if err := walk.Guard(func() error {
+		if _, e := walk.Into(pj); e == walk.ErrSteps {
+			return errNonTerm
+		}
+		return nil
+	}); err != nil {
 		return fmt.Errorf("AdvanceInto walk: %w", err)
 	}
 	// Recursive readers (and Array.Interface, which pre-allocates its remaining extent at
@@ -293,8 +301,16 @@ func sweepResult(pj *simdjson.ParsedJson) error {
 	// tapes; deep nesting is exercised separately by C05's deep mode.
 	deep := tapeDepth(pj) > 3000
 	steps := []func(){
-		func() { walk.Adv(pj) },
-		func() { walk.IterCB(pj) },
+		func() {
+			if _, e := walk.Adv(pj); errors.Is(e, walk.ErrSteps) {
+				panic(errNonTerm)
+			}
+		},
+		func() {
+			if _, e := walk.IterCB(pj); errors.Is(e, walk.ErrSteps) {
+				panic(errNonTerm)
+			}
+		},
 		func() { walk.Elems(pj) },
 		func() { walk.Iface(pj) },
 		func() { it := pj.Iter(); it.MarshalJSON() },
@@ -313,7 +329,12 @@ func sweepResult(pj *simdjson.ParsedJson) error {
 			s.Serialize(nil, *pj)
 		},
 	}
-	names := []string{"Advance walk", "ForEach walk", "Object.Parse walk", "Interface", "MarshalJSON", "FindElement/Peek/AdvanceIter", "Serialize"}
+	steps = append(steps, func() {
+		if err := sweepContainers(pj, deep); err != nil {
+			panic(err)
+		}
+	})
+	names := []string{"Advance walk", "ForEach walk", "Object.Parse walk", "Interface", "MarshalJSON", "FindElement/Peek/AdvanceIter", "Serialize", "container accessors"}
 	for i, f := range steps {
 		if deep && (i == 1 || i == 2 || i == 3) {
 			continue
@@ -325,6 +346,159 @@ func sweepResult(pj *simdjson.ParsedJson) error {
 		}
 		if err := walk.Guard(func() error { f(); return nil }); err != nil {
 			return fmt.Errorf("%s: %w", names[i], err)
+		}
+	}
+	return nil
+}
+
+var errNonTerm = errors.New("reader does not terminate: still going after more steps than the tape has entries")
+
+// sweepContainers visits the containers of a returned result and runs the typed and bulk
+// accessors on each: Array.As*, FirstType, ForEach, Interface, MarshalJSON; Object.Map, Parse
+// (+Elements), FindKey, FindPath, ForEach with and without a key filter, NextElement.
+func sweepContainers(pj *simdjson.ParsedJson, deep bool) error {
+	limit := 12
+	if len(pj.Tape) <= 96 {
+		limit = 1 << 30
+	}
+	it := pj.Iter()
+	seen := 0
+	for steps := 0; steps <= len(pj.Tape)+2; steps++ {
+		tag := it.AdvanceInto()
+		if tag == simdjson.TagEnd {
+			break
+		}
+		if tag != simdjson.TagArrayStart && tag != simdjson.TagObjectStart {
+			continue
+		}
+		if seen++; seen > limit {
+			break
+		}
+		c := it
+		bound := len(pj.Tape) + 2
+		run := func(name string, f func()) error {
+			if err := walk.Guard(func() error { f(); return nil }); err != nil {
+				return fmt.Errorf("%s: %w", name, err)
+			}
+			return nil
+		}
+		if tag == simdjson.TagArrayStart {
+			a, err := c.Array(nil)
+			if err != nil {
+				continue
+			}
+			ops := []struct {
+				n string
+				f func(a *simdjson.Array)
+			}{
+				{"Array.AsFloat", func(a *simdjson.Array) { a.AsFloat() }},
+				{"Array.AsInteger", func(a *simdjson.Array) { a.AsInteger() }},
+				{"Array.AsUint64", func(a *simdjson.Array) { a.AsUint64() }},
+				{"Array.AsString", func(a *simdjson.Array) { a.AsString() }},
+				{"Array.AsStringCvt", func(a *simdjson.Array) { a.AsStringCvt() }},
+				{"Array.FirstType", func(a *simdjson.Array) { a.FirstType() }},
+				{"Array.MarshalJSON", func(a *simdjson.Array) { a.MarshalJSON() }},
+				{"Array.ForEach", func(a *simdjson.Array) {
+					n := 0
+					a.ForEach(func(i simdjson.Iter) {
+						if n++; n > bound {
+							panic(errNonTerm)
+						}
+						i.Type()
+					})
+				}},
+				{"Array.Iter+Advance", func(a *simdjson.Array) {
+					ai := a.Iter()
+					for n := 0; ai.Advance() != simdjson.TypeNone; n++ {
+						if n > bound {
+							panic(errNonTerm)
+						}
+					}
+				}},
+			}
+			if !deep {
+				ops = append(ops, struct {
+					n string
+					f func(a *simdjson.Array)
+				}{"Array.Interface", func(a *simdjson.Array) { a.Interface() }})
+			}
+			for _, op := range ops {
+				cp := *a
+				if err := run(op.n, func() { op.f(&cp) }); err != nil {
+					return err
+				}
+			}
+			continue
+		}
+		o, err := c.Object(nil)
+		if err != nil {
+			continue
+		}
+		var firstKey string
+		ops := []struct {
+			n string
+			f func(o *simdjson.Object)
+		}{
+			{"Object.NextElement", func(o *simdjson.Object) {
+				var e simdjson.Iter
+				for n := 0; ; n++ {
+					name, t, err := o.NextElement(&e)
+					if err != nil || t == simdjson.TypeNone {
+						break
+					}
+					if n == 0 {
+						firstKey = name
+					}
+					if n > bound {
+						panic(errNonTerm)
+					}
+				}
+			}},
+			{"Object.FindKey", func(o *simdjson.Object) {
+				var e simdjson.Element
+				o.FindKey("a", &e)
+				if el := o.FindKey(firstKey, nil); el != nil {
+					el.Iter.Type()
+				}
+			}},
+			{"Object.FindPath", func(o *simdjson.Object) {
+				o.FindPath(nil, "a", "b")
+				o.FindPath(nil, firstKey, "x")
+			}},
+			{"Object.ForEach", func(o *simdjson.Object) {
+				n := 0
+				o.ForEach(func(key []byte, i simdjson.Iter) {
+					if n++; n > bound {
+						panic(errNonTerm)
+					}
+				}, nil)
+			}},
+			{"Object.ForEach(onlyKeys)", func(o *simdjson.Object) {
+				n := 0
+				o.ForEach(func(key []byte, i simdjson.Iter) {
+					if n++; n > bound {
+						panic(errNonTerm)
+					}
+				}, map[string]struct{}{"a": {}, firstKey: {}})
+			}},
+			{"Object.Parse+Elements", func(o *simdjson.Object) {
+				if el, err := o.Parse(nil); err == nil {
+					el.MarshalJSON()
+					el.Lookup(firstKey)
+				}
+			}},
+		}
+		if !deep {
+			ops = append(ops, struct {
+				n string
+				f func(o *simdjson.Object)
+			}{"Object.Map", func(o *simdjson.Object) { o.Map(nil) }})
+		}
+		for _, op := range ops {
+			cp := *o
+			if err := run(op.n, func() { op.f(&cp) }); err != nil {
+				return err
+			}
 		}
 	}
 	return nil
